@@ -350,7 +350,7 @@ def ext_sorted(e, args, kw, node, st):
     smaller than an earlier one.  Of `not (out[w] < out[q])` (q < w) only these consequences are used; they hold because
     Residue3D.__eq__ (dataclass equality on label, auth, model, ...) implies equal ordering keys, so a < b implies a != b:
         not res_lt(out[w][0], out[q][0]);   out[w][0] is out[q][0]  ->  not res_lt(out[w][1], out[q][1]).
-    The bijection is made available to the proof as the ghost lists SORTED_PI / SORTED_PINV, the result as SORTED_OUT."""
+    """
     from pyvc.values import VList, fresh, sel
     xs = args[0]
     if kw or len(args) != 1 or not isinstance(xs, VList) or xs.eshape != ("tuple", (("ref", "Residue3D"), ("ref", "Residue3D"), ("str",))):
@@ -364,15 +364,14 @@ def ext_sorted(e, args, kw, node, st):
     same = z3.And(*[a == b for a, b in zip(_leaves(sel(out.elems, q)), _leaves(sel(xs.elems, pi[q])))])
     st.assume(z3.ForAll([q], z3.Implies(z3.And(q >= 0, q < n), z3.And(pi[q] >= 0, pi[q] < n, pinv[pi[q]] == q, same)),
                         patterns=[pi[q], to_z3(sel(out.elems, q).items[0].ident)]))
-    st.assume(z3.ForAll([q], z3.Implies(z3.And(q >= 0, q < n), z3.And(pinv[q] >= 0, pinv[q] < n, pi[pinv[q]] == q)), patterns=[pinv[q]]))
+    st.assume(z3.ForAll([q], z3.Implies(z3.And(q >= 0, q < n), z3.And(pinv[q] >= 0, pinv[q] < n, pi[pinv[q]] == q)),
+                        patterns=[pinv[q], to_z3(sel(xs.elems, q).items[0].ident)]))
     oq, ow = sel(out.elems, q).items, sel(out.elems, w).items
     lt0 = to_z3(_spec_call(e, "res_lt", [ow[0], oq[0]], st))
     lt1 = to_z3(_spec_call(e, "res_lt", [ow[1], oq[1]], st))
     st.assume(z3.ForAll([q, w], z3.Implies(z3.And(q >= 0, q < w, w < n),
                                            z3.And(z3.Not(lt0), z3.Implies(to_z3(ow[0].ident) == to_z3(oq[0].ident), z3.Not(lt1)))),
                         patterns=[z3.MultiPattern(to_z3(oq[0].ident), to_z3(ow[0].ident))]))
-    st.ghost["SORTED_PI"], st.ghost["SORTED_PINV"], st.ghost["SORTED_OUT"] = VList(n, pi, ("int",)), VList(n, pinv, ("int",)), out
-    e.last_enum = out  # lets the loop over the sorted list name it (loop option "seq")
     return out
 
 
@@ -560,9 +559,9 @@ _HI = lambda m: f"hi_index({_S}, {_AM.replace('[m]', '[' + m + ']')}, {_BM.repla
 
 class find_stackings_c:
     """Ghost state (proof-internal, never read by the code): SRC0[k] = position in structure.residues of the residue that
-    produced coordinates[k]; POS0[a] = position in coordinates of residue a (-1: it takes no part); SRC2[m] = position in
+    produced coordinates[k]; SRC2[m] = position in
     the enumeration EN of kdtree.query_pairs of the index pair that produced pairs[m]; POS2[u] = position in pairs of
-    what step u appended (-1: nothing)."""
+    what step u appended (-1: nothing); SP = the list the last loop iterates over (sorted(pairs))."""
     target = "find_stackings"
     params = {"structure": "Structure3D", "model": "opt[int]"}
     returns = "list[rec[Stacking]]"
@@ -601,10 +600,10 @@ class find_stackings_c:
                       2: "each-pair-reported-once", 3: "ordered-by-chain-and-number"}
     loops = {
         0: {"index": "p", "inv": [
-            "0 <= len(coordinates) and len(SRC0) == len(coordinates) and len(POS0) == p",
-            f"forall(lambda k: implies(0 <= k and k < len(coordinates), 0 <= SRC0[k] and SRC0[k] < p and POS0[SRC0[k]] == k and {_EL('SRC0[k]')} "
+            "0 <= len(coordinates) and len(SRC0) == len(coordinates)",
+            f"forall(lambda k: implies(0 <= k and k < len(coordinates), 0 <= SRC0[k] and SRC0[k] < p and {_EL('SRC0[k]')} "
             f"and coordinates[k] == cen({_S}[SRC0[k]]) and coordinates[k] in coordinates_residue_map and {_RM('k')} == {_S}[SRC0[k]]), pats=['SRC0[k]', 'coordinates[k][0]'])",
-            f"forall(lambda a: implies(0 <= a and a < p, ite({_EL('a')}, 0 <= POS0[a] and POS0[a] < len(coordinates) and SRC0[POS0[a]] == a, POS0[a] == 0 - 1)), pats=['POS0[a]'])",
+            f"forall(lambda a: implies(0 <= a and a < p and {_EL('a')}, exists(lambda k: 0 <= k and k < len(coordinates) and SRC0[k] == a)), pats=['cnt_base({_S}[a])'])",
             "forall(lambda k, w: implies(0 <= k and k < w and w < len(coordinates), SRC0[k] < SRC0[w]), pats=[['SRC0[k]', 'SRC0[w]']])",
         ]},
         1: {"index": "kk", "inv": [
@@ -619,14 +618,13 @@ class find_stackings_c:
             f"and implies(stk({_UI}, {_UJ}, 0 - EPS), 0 <= POS2[u] and pair_tight(pairs[POS2[u]], {_UI}, {_UJ}))), pats=['POS2[u]', 'EN[u][0]'])",
             "forall(lambda m, w: implies(0 <= m and m < w and w < len(pairs), SRC2[m] < SRC2[w]), pats=[['SRC2[m]', 'SRC2[w]']])",
         ]},
-        3: {"index": "q3", "seq": "SP", "inv": [
+        3: {"index": "q3", "iter": "SP", "inv": [
             "len(stackings) == q3",
-"forall(lambda q: implies(0 <= q and q < q3, rec_of(stackings[q], pairs[SORTED_PI[q]])), pats=['stackings[q].topology', 'stackings[q].nt1.label', 'SORTED_PI[q]'])",
+            "forall(lambda q: implies(0 <= q and q < q3, rec_of(stackings[q], SP[q])), pats=['stackings[q].topology', 'stackings[q].nt1.label'])",
         ]},
     }
     ghost = [
-        {"when": "after", "at": "coordinates = []", "label": "ghost-init0", "do": ["let SRC0 = empty('list[int]')", "let POS0 = empty('list[int]')"]},
-        {"when": "before", "at": "continue", "loop": 0, "label": "skip0", "do": ["let POS0 = snoc(POS0, 0 - 1)"]},
+        {"when": "after", "at": "coordinates = []", "label": "ghost-init0", "do": ["let SRC0 = empty('list[int]')"]},
         {"when": "after", "at": "base_atoms =", "label": "base-atom-table-is-the-pinned-table",
          "do": ["assert len(base_atoms) == len(base_names(residue)) and forall(lambda q: implies(0 <= q and q < len(base_atoms), base_atoms[q] == base_names(residue)[q]))"]},
         {"when": "after", "at": "xs, ys, zs =", "label": "sum-empty",
@@ -645,39 +643,44 @@ class find_stackings_c:
                 "use mean_unique(cenz(residue), len(zs), cnt_base(residue), sum(zs), bsz(residue, len(base_names(residue))), 1 / len(zs))",
                 "assert geometric_center[0] == cenx(residue) and geometric_center[1] == ceny(residue) and geometric_center[2] == cenz(residue)"]},
         {"when": "after", "at": "coordinates.append(", "label": "src0", "do": ["let SRC0 = snoc(SRC0, p)"]},
-        {"when": "after", "at": "if len(xs) > 0", "label": "pos0", "do": ["let POS0 = snoc(POS0, ite(len(xs) > 0, len(coordinates) - 1, 0 - 1))"]},
         {"when": "before", "at": "kdtree =", "label": "centroid-table",
          "do": [f"assert forall(lambda k: implies(0 <= k and k < len(coordinates), coordinates[k] == cen({_RM('k')}) and implies(not is_none({_RM('k')}.base_normal_vector), "
                 f"dot3(some({_RM('k')}.base_normal_vector), some({_RM('k')}.base_normal_vector)) > 0)), pats=['coordinates[k][0]'])",
                 f"assert forall(lambda k, w: implies(0 <= k and k < w and w < len(coordinates), {_RM('k')} != {_RM('w')} and coordinates[k] != coordinates[w]), pats=[['coordinates[k][0]', 'coordinates[w][0]']])"]},
-        {"when": "before", "at": "stackings = []", "label": "pairs-vs-definition",
+        # ---- after loop 2: the triples in `pairs` against the definition over structure.residues
+        {"when": "before", "at": "stackings = []", "label": "every-triple-comes-from-a-pair-satisfying-the-definition",
          "do": [f"assert forall(lambda m: implies(0 <= m and m < len(pairs), 0 <= {_AM} and {_AM} < {_BM} and {_BM} < {_N} and {_EL(_AM)} and {_EL(_BM)} "
                 f"and stk({_S}[{_AM}], {_S}[{_BM}], EPS) and pair_loose(pairs[m], {_S}[{_AM}], {_S}[{_BM}])), pats=['SRC2[m]', 'ident(pairs[m][0])'])",
                 f"assert forall(lambda m: implies(0 <= m and m < len(pairs), 0 <= {_LO('m')} and {_LO('m')} < {_N} and 0 <= {_HI('m')} and {_HI('m')} < {_N} "
                 f"and {_LO('m')} != {_HI('m')} and {_EL(_LO('m'))} and {_EL(_HI('m'))} and pairs[m][0] == {_S}[{_LO('m')}] and pairs[m][1] == {_S}[{_HI('m')}]), "
-                f"pats=['SRC2[m]', 'ident(pairs[m][0])'])",
-                "assert forall(lambda m, w: implies(0 <= m and m < w and w < len(pairs), not (pairs[m][0] == pairs[w][0] and pairs[m][1] == pairs[w][1])), "
-                "pats=[['ident(pairs[m][0])', 'ident(pairs[w][0])']])",
-                f"assert forall(lambda a, b: implies(0 <= a and a < b and b < {_N} and {_EL('a')} and {_EL('b')} and stk({_S}[a], {_S}[b], 0 - EPS), "
-                f"(POS0[a], POS0[b]) in kdtree.query_pairs(D_MAX)), pats=[['ident({_S}[a])', 'ident({_S}[b])']])",
+                f"pats=['SRC2[m]', 'ident(pairs[m][0])'])"]},
+        {"when": "before", "at": "stackings = []", "label": "no-residue-pair-twice-in-pairs",
+         "do": ["assert forall(lambda m, w: implies(0 <= m and m < w and w < len(pairs), not (pairs[m][0] == pairs[w][0] and pairs[m][1] == pairs[w][1])), "
+                "pats=[['ident(pairs[m][0])', 'ident(pairs[w][0])']])"]},
+        {"when": "before", "at": "stackings = []", "label": "every-pair-satisfying-the-definition-has-a-triple",
+         "do": [f"assert forall(lambda a, b: implies(0 <= a and a < b and b < {_N} and {_EL('a')} and {_EL('b')} and stk({_S}[a], {_S}[b], 0 - EPS), "
+                f"exists(lambda k, w: 0 <= k and k < w and w < len(coordinates) and SRC0[k] == a and SRC0[w] == b and (k, w) in kdtree.query_pairs(D_MAX))), "
+                f"pats=[['ident({_S}[a])', 'ident({_S}[b])']])",
                 f"assert forall(lambda a, b: implies(0 <= a and a < b and b < {_N} and {_EL('a')} and {_EL('b')} and stk({_S}[a], {_S}[b], 0 - EPS), "
                 f"exists(lambda m: 0 <= m and m < len(pairs) and pair_tight(pairs[m], {_S}[a], {_S}[b]))), pats=[['ident({_S}[a])', 'ident({_S}[b])']])"]},
-        {"when": "before", "at": "nt1 =", "label": "sorted-triple",
-         "do": ["assert 0 <= SORTED_PI[q3] and SORTED_PI[q3] < len(pairs) and residue_i == pairs[SORTED_PI[q3]][0] and residue_j == pairs[SORTED_PI[q3]][1] "
-                "and topology == pairs[SORTED_PI[q3]][2]",
+        # ---- loop 3: the iterated list SP against `pairs`
+        {"when": "before", "at": "nt1 =", "label": "topology-name-is-a-member",
+         "do": ["assert exists(lambda m: 0 <= m and m < len(pairs) and residue_i == pairs[m][0] and residue_j == pairs[m][1] and topology == pairs[m][2])",
                 "assert topology == 'upward' or topology == 'downward' or topology == 'inward' or topology == 'outward'"]},
-        {"when": "before", "at": "return stackings", "label": "records-vs-pairs",
-         "do": ["assert len(stackings) == len(pairs) and forall(lambda q: implies(0 <= q and q < len(stackings), 0 <= SORTED_PI[q] and SORTED_PI[q] < len(pairs) "
-                "and SORTED_PINV[SORTED_PI[q]] == q and rec_of(stackings[q], pairs[SORTED_PI[q]])), pats=['stackings[q].topology', 'stackings[q].nt1.label', 'SORTED_PI[q]'])",
-                f"assert forall(lambda q: implies(0 <= q and q < len(stackings), same_ids(stackings[q], {_S}[{_LO('SORTED_PI[q]')}], {_S}[{_HI('SORTED_PI[q]')}])), "
-                f"pats=['stackings[q].topology', 'stackings[q].nt1.label', 'SORTED_PI[q]'])",
-                "assert forall(lambda m: implies(0 <= m and m < len(pairs), 0 <= SORTED_PINV[m] and SORTED_PINV[m] < len(stackings) "
-                "and rec_of(stackings[SORTED_PINV[m]], pairs[m])), pats=['SORTED_PINV[m]', 'ident(pairs[m][0])'])",
-                "assert forall(lambda q, w: implies(0 <= q and q < w and w < len(stackings), "
-                "not (pairs[SORTED_PI[q]][0] == pairs[SORTED_PI[w]][0] and pairs[SORTED_PI[q]][1] == pairs[SORTED_PI[w]][1])), pats=[['SORTED_PI[q]', 'SORTED_PI[w]']])",
-                "assert forall(lambda q, w: implies(0 <= q and q < w and w < len(stackings), "
-                "not res_lt(pairs[SORTED_PI[w]][0], pairs[SORTED_PI[q]][0]) and implies(pairs[SORTED_PI[w]][0] == pairs[SORTED_PI[q]][0], "
-                "not res_lt(pairs[SORTED_PI[w]][1], pairs[SORTED_PI[q]][1]))), pats=[['SORTED_PI[q]', 'SORTED_PI[w]']])"]},
+        {"when": "before", "at": "return stackings", "label": "output-list-is-a-rearrangement-of-pairs",
+         "do": ["assert len(stackings) == len(SP) and len(SP) == len(pairs)",
+                "assert forall(lambda q: implies(0 <= q and q < len(SP), exists(lambda m: 0 <= m and m < len(pairs) and SP[q][0] == pairs[m][0] and SP[q][1] == pairs[m][1] "
+                "and SP[q][2] == pairs[m][2])), pats=['ident(SP[q][0])'])",
+                "assert forall(lambda m: implies(0 <= m and m < len(pairs), exists(lambda q: 0 <= q and q < len(SP) and SP[q][0] == pairs[m][0] and SP[q][1] == pairs[m][1] "
+                "and SP[q][2] == pairs[m][2])), pats=['ident(pairs[m][0])'])",
+                "assert forall(lambda q, w: implies(0 <= q and q < w and w < len(SP), not (SP[q][0] == SP[w][0] and SP[q][1] == SP[w][1])), "
+                "pats=[['ident(SP[q][0])', 'ident(SP[w][0])']])"]},
+        {"when": "before", "at": "return stackings", "label": "output-list-is-sorted-by-residue-order",
+         "do": ["assert forall(lambda q, w: implies(0 <= q and q < w and w < len(SP), not res_lt(SP[w][0], SP[q][0]) "
+                "and implies(SP[w][0] == SP[q][0], not res_lt(SP[w][1], SP[q][1]))), pats=[['ident(SP[q][0])', 'ident(SP[w][0])']])"]},
+        {"when": "before", "at": "return stackings", "label": "records-name-residues-of-the-structure",
+         "do": [f"assert forall(lambda q: implies(0 <= q and q < len(SP), exists(lambda a, b: 0 <= a and a < {_N} and 0 <= b and b < {_N} and a != b and {_EL('a')} and {_EL('b')} "
+                f"and SP[q][0] == {_S}[a] and SP[q][1] == {_S}[b])), pats=['ident(SP[q][0])'])"]},
         {"when": "after", "at": "pairs = []", "label": "ghost-init2", "do": ["let SRC2 = empty('list[int]')", "let POS2 = empty('list[int]')"]},
         {"when": "after", "at": "residue_j =", "label": "pair-of-step",
          "do": [f"assert 0 <= i and i < j and j < len(coordinates) and residue_i == {_RM('i')} and residue_j == {_RM('j')}"]},
